@@ -10,7 +10,61 @@ def optRatJ : Option Rat → Json
   | some q => ratJ q
   | none => .null
 
+def jExt (j : Json) : Except String Ext :=
+  match j with
+  | .str "inf" => pure .inf
+  | _ => do pure (.fin (← jRat j))
+
+def extJ : Ext → Json
+  | .fin x => ratJ x
+  | .inf => .str "inf"
+
+def valsJ (m : ModelVals Ext) : Json :=
+  Json.mkObj [("pars", assocJ extJ m.pars), ("vars", assocJ extJ m.vars)]
+
+def fitJ : Option (Fit Ext) → Json
+  | some f => Json.mkObj [("best", assocJ extJ f.bestPars), ("loss", extJ f.loss)]
+  | none => .null
+
+def jFit (j : Json) : Except String (Option (Fit Ext)) :=
+  match j with
+  | .null => pure none
+  | _ => do pure (some ⟨← jAssoc jExt (← field j "best"), ← jExt (← field j "loss")⟩)
+
+/-- the fit drivers end to end with the scripted minimiser; `residual` is a table from candidate values to the
+recorded residual (anything else: `inf`) -/
+def handleDriver (dj : Json) : Except String Json := do
+  let setsBest ← match ← field dj "setsBest" with
+    | .str "gen" => pure Gen.fitSetsBest
+    | b => jBool b
+  let asDeepcopy ← jBool (← field dj "asDeepcopy")
+  let y0 ← match ← field dj "y0" with
+    | .null => pure none
+    | y => do pure (some (← jAssoc jExt y))
+  let mj ← field dj "model"
+  let model : ModelVals Ext := ⟨← jAssoc jExt (← field mj "pars"), ← jAssoc jExt (← field mj "vars")⟩
+  let p0 ← jAssoc jExt (← field dj "p0")
+  let cands ← jList (jList jExt) (← field dj "cands")
+  let fail ← jBool (← field dj "fail")
+  let table ← jList (jPair (jList jExt) jExt) (← field dj "table")
+  let residual : List (String × Ext) → Ext := fun u => (table.lookup (u.map (·.2))).getD .inf
+  let out := fitDriver setsBest asDeepcopy y0 model p0 cands fail residual
+  let (pN, vN) := routeNames model (p0.map (·.1))
+  pure (Json.mkObj [("fit", fitJ out.fit), ("caller", valsJ out.caller), ("work", valsJ out.work),
+    ("trace", .arr (out.trace.map (assocJ extJ)).toArray),
+    ("p_names", .arr (pN.map Json.str).toArray), ("v_names", .arr (vN.map Json.str).toArray),
+    ("y0_ok", .bool (match y0 with | some y => (updateVariables model y).isSome | none => true))])
+
 def handle (j : Json) : Except String Json := do
+  if let .ok dj := j.getObjVal? "drv" then
+    return ← handleDriver dj
+  if let .ok ej := j.getObjVal? "ens" then
+    -- EnsembleFit: failures dropped, get_best_fit = first fit with the least loss
+    let fits ← jList jFit ej
+    let kept := ensembleFits fits
+    return Json.mkObj [("kept", .arr (kept.map fun f => fitJ (some f)).toArray), ("best", fitJ (getBestFit kept))]
+  if let .ok sj := j.getObjVal? "sum" then
+    return extJ (sumResiduals (← jList jExt sj))
   if let .ok bj := j.getObjVal? "bounds" then
     -- the boxes LocalScipyMinimizer hands to scipy, in the order of p0
     let names ← jList jStr (← field bj "names")
@@ -46,6 +100,11 @@ def handle (j : Json) : Except String Json := do
         | "mean_absolute_percentage" => some (Gen.settingsLoss Gen.mean_absolute_percentage on m s d p)
         | _ => none
       pure (optRatJ v)
-    | .error _ => pure (optRatJ (Gen.evalRat name d p))
+    | .error _ =>
+      if name == "cosine_similarity" then
+        -- no square root at Rat: the exact inner product and squared norms the generated definition is built from
+        let (dot, a, b) := cosineParts d p
+        pure (Json.arr #[ratJ dot, ratJ a, ratJ b])
+      else pure (optRatJ (Gen.evalRat name d p))
 
 end Driver.H_c20
